@@ -126,6 +126,12 @@ func run(w *core.Worker, c Case) {
 			w.Violation("btree.panic:"+op.K, fmt.Sprintf("step %d %+v panicked: %v", i, op, p))
 			return
 		}
+		if op.K == "remove" && p == nil {
+			if got := t.Size(); got != len(model) { // Size is O(1): after every single Remove
+				w.Violation("btree.size", fmt.Sprintf("after step %d (Remove(%d)): Size()=%d, model holds %d keys", i, op.Key, got, len(model)))
+				return
+			}
+		}
 		// the height bound is cheap to observe: after every single step
 		if h := t.Height(); h >= 0 {
 			n := len(ever)
@@ -189,7 +195,7 @@ func run(w *core.Worker, c Case) {
 func TestProp(t *testing.T) {
 	r := core.Start(t, "C10")
 	defer r.Finish()
-	r.Rule("cases = Put (fresh value per step)/Remove/Get sequences on btree.BTree[int,int] checked against a map model: Height <= log2(max(1, distinct keys ever inserted)) after every step, Size, IsEmpty, Get of the key just written/removed before any other lookup, then Get of every probe key and the full Traverse sequence, after the last step (sweep) or every 1st/2nd/5th/11th step (random) or periodically (bulk); non-trivial = the sequence overwrote or removed a present key; btree-orders: insertion orders built from ascending/descending runs over shuffled contiguous key blocks, zigzag and middle-out orders; distinct by hash of the ops")
+	r.Rule("cases = Put (fresh value per step)/Remove/Get sequences on btree.BTree[int,int] checked against a map model: Height <= log2(max(1, distinct keys ever inserted)) after every step, Size, IsEmpty, Get of the key just written/removed before any other lookup, then Get of every probe key and the full Traverse sequence, after the last step (sweep) or every 1st/2nd/5th/11th step (random) or periodically (bulk); non-trivial = the sequence overwrote or removed a present key; btree-deep: sorted/reversed loads of 20 000+ keys and shuffled loads of 300-3000 keys of which all or most are removed again (Size after every Remove) and half re-put; btree-orders: insertion orders built from ascending/descending runs over shuffled contiguous key blocks, zigzag and middle-out orders; distinct by hash of the ops")
 
 	var alpha []Op
 	for k := 0; k <= 5; k++ {
@@ -258,6 +264,58 @@ func TestProp(t *testing.T) {
 					if rng.Bool() {
 						c.Ops = append(c.Ops, Op{"get", v}, Op{"put", v})
 					}
+				}
+			}
+			emit(c)
+		}
+	}, run)
+
+	// deep trees and mass removal: sorted / reversed loads of 20 000 keys (height 13+), and loads
+	// of 300-3000 keys of which all or most are removed again (removed entries outnumber live ones),
+	// Size after every single Remove, full observation at the end of each phase
+	nDeep := r.Pick(6, 60)
+	core.Monitor(r, "btree-deep", 0, func(emit func(Case)) {
+		rng := r.Rand("c10-deep")
+		for i := 0; i < nDeep; i++ {
+			c := Case{Full: true, Keys: -1}
+			if i < 2 || i%10 == 0 {
+				n := 20000 + rng.Intn(3000)
+				c.Every = n / 2
+				for k := 0; k < n; k++ {
+					key := k
+					if i%2 == 1 {
+						key = n - k
+					}
+					c.Ops = append(c.Ops, Op{"put", key})
+				}
+				for k := 0; k < 40; k++ {
+					v := rng.Intn(n)
+					c.Ops = append(c.Ops, Op{"remove", v}, Op{"get", v}, Op{"put", v}, Op{"get", v})
+				}
+			} else {
+				n := rng.Range(300, 3000)
+				c.Every = n/3 + 1
+				order := make([]int, n)
+				for j := range order {
+					order[j] = j
+				}
+				for j := n - 1; j > 0; j-- {
+					k := rng.Intn(j + 1)
+					order[j], order[k] = order[k], order[j]
+				}
+				for _, k := range order {
+					c.Ops = append(c.Ops, Op{"put", k})
+				}
+				keep := []int{0, 1, n / 10, n / 3}[rng.Intn(4)]
+				for j := n - 1; j > 0; j-- {
+					k := rng.Intn(j + 1)
+					order[j], order[k] = order[k], order[j]
+				}
+				for _, k := range order[keep:] {
+					c.Ops = append(c.Ops, Op{"remove", k})
+				}
+				for _, k := range order[:n/2] { // refill half
+					c.Ops = append(c.Ops, Op{"put", k})
 				}
 			}
 			emit(c)
